@@ -49,7 +49,7 @@ def main():
             res = {}
             for p in ([prop] + [c for c in claimed if c != prop] if all_props else [prop]):
                 rr = sh([os.path.join(VERIF, "check"), p, "--no-evidence"], cwd=VERIF)
-                keys = re.findall(r"^  (\S+) at ", rr.stdout, re.M)
+                keys = re.findall(r"^  (.+?) at (?:src|bin|std)/", rr.stdout, re.M)
                 res[p] = {"exit": rr.returncode, "violations": keys,
                           "errors": re.findall(r"^CHECK-ERROR: (.*)$", rr.stdout, re.M)[:5]}
         finally:
